@@ -122,3 +122,32 @@ Print Assumptions C15_jac_rows.
 Print Assumptions C15_vjp_linear.
 Print Assumptions C15_chain.
 Print Assumptions C15_aggregate.
+
+(* ---- chaining at the TRANSFORM level (added): Jac(mid -> ins) o Jac(outs -> mid) = Jac(outs -> ins)
+   whenever mid is a cut, for all three chunk sizes and flags independently; same for Grad ---- *)
+From TJ.proofs Require Import C02Proofs C05Proofs EndToEndProofs.
+Theorem C15_jac_chain : forall (P : prog R) A outs mid ins k1 r1 k2 r2 k r s d dc sc se de se' m,
+  wf_prog P -> outs <> [] -> mid <> [] -> NoDup mid -> NoDup ins ->
+  valid_chunk k1 = true -> valid_chunk k2 = true -> valid_chunk k = true -> (1 <= m)%nat ->
+  (forall o, In o outs -> nrows (dget' d o) = m /\
+                          Forall (fun row => length row = pnumel P o) (t_rows (dget' d o))) ->
+  (forall i, In i ins -> is_cut P outs mid i) ->
+  run RN P A (TComp (TJac mid ins k2 r2) (TJac outs mid k1 r1)) s d = (Ok dc, sc) ->
+  run RN P A (TJac outs ins k r) se d = (Ok de, se') ->
+  dk dc = dk de /\
+  forall i, In i ins ->
+    dget dc i = dget de i /\
+    dget dc i = Some (mkTens true (p_shape P i)
+      (map (fun r0 => vjp RN P outs (map (fun o => nth r0 (t_rows (dget' d o)) []) outs) i)
+           (seq 0 m))).
+Proof. exact jac_comp_chain. Qed.
+Print Assumptions C15_jac_chain.
+Theorem C15_grad_chain : forall (P : prog R) A outs mid ins r1 r2 r s d dc sc se de se',
+  wf_prog P -> outs <> [] -> mid <> [] -> NoDup mid ->
+  (forall o, In o outs -> length (flat (dget' d o)) = pnumel P o) ->
+  (forall i, In i ins -> is_cut P outs mid i) ->
+  run RN P A (TComp (TGrad mid ins r2) (TGrad outs mid r1)) s d = (Ok dc, sc) ->
+  run RN P A (TGrad outs ins r) se d = (Ok de, se') ->
+  dk dc = dk de /\ forall i, In i ins -> dget dc i = dget de i.
+Proof. exact grad_comp_chain. Qed.
+Print Assumptions C15_grad_chain.
